@@ -13,7 +13,19 @@ var primitiveConversionsSafe = map[cty.Type]map[cty.Type]conversion{
 	cty.Number: {
 		cty.String: func(val cty.Value, path cty.Path) (cty.Value, error) {
 			f := val.AsBigFloat()
-			return cty.StringVal(f.Text('f', -1)), nil
+			text := f.Text('f', -1)
+			if f.IsInt() {
+				// Whole numbers compare exactly, but the shortest text that
+				// identifies a number at its own precision can denote a
+				// different integer once it is parsed back at the precision
+				// used for string to number conversion (e.g. the float64
+				// 1e23 is 99999999999999991611392). In that case we write
+				// all of the digits.
+				if back, err := cty.ParseNumberVal(text); err != nil || back.AsBigFloat().Cmp(f) != 0 {
+					text = f.Text('f', 0)
+				}
+			}
+			return cty.StringVal(text), nil
 		},
 	},
 	cty.Bool: {
